@@ -9,6 +9,7 @@ import copy
 import os
 
 import core
+import history
 import pipeline
 from core import Rng, derive
 
@@ -24,6 +25,7 @@ def gen_cases(tier, seed):
     quick = tier == "quick"
     n = 0
     yield from gen_twins(tier, seed)
+    yield from history.gen_cases(PROP, "c04", tier, seed, 400 if quick else 6000)
     # (a) corpus, each entry under several environments
     entries = [e for e in pipeline.corpus_entries() if e not in pipeline.SLOW_OR_UNSTABLE]
     reps = 3 if quick else 12
@@ -168,6 +170,8 @@ def run_twins(case):
 def run_case(case):
     if case.get("kind") == "twins":
         return run_twins(case)
+    if case.get("kind") == "hist":
+        return history.run_case(case)
     files, entry = pipeline.case_files(case)
     env = case["env"]
     dump = bool(case.get("same_seed"))
@@ -276,6 +280,9 @@ def run_case(case):
 
 
 def shrink(case):
+    if case.get("kind") == "hist":
+        yield from history.shrink(case)
+        return
     if case.get("kind") == "twins":
         for key in ("a_op", "b_op"):
             if case[key] != "run":
@@ -297,7 +304,7 @@ RULE = ("worlds: every .ms of /repo/examples as entry (with its directory), ever
         "up to the tier's length (quick 3, thorough 4; escaped and raw spellings; three syntactic positions), odd entry file names, "
         "generated programs of the feature generators; environments: per-process hash seeds, short/EINTR rules on source and bytecode reads, "
         "bytecode writes, opens and stdout, stale/garbage artefacts, torn artefacts from a really killed compile, forced GC schedules; "
-        "hard faults as observations. distinct = distinct (program, rule-shape, dirty, torn, gc) tuples; non-trivial = program compiled, "
+        "hard faults as observations; project histories (edits, run, compile, execute, clean, killed commands, unwritable artefacts on one long-lived project under five file-time policies) against a revision model. distinct = distinct (program, rule-shape, dirty, torn, gc) tuples; non-trivial = program compiled, "
         "`execute` ran and printed output")
 
 
